@@ -161,7 +161,15 @@ def vintb_case(i, v, rng):
     docs = []
     for d in range(n):
         if d in special:
-            if v["kind"] == "tf":
+            if v["kind"] == "biggap":
+                if v["place"] == "values":          # the gap lies between two values of the field
+                    docs.append({f: [[["T", 0, 1], ["w1", 1, 1]], [["T", val, 1], ["T", val + 3, 1]]]})
+                    continue
+                if v["place"] == "many":            # more than 128 positions: bit-packed block(s), the gap in the tail
+                    toks = [["T", p, 1] for p in range(130)] + [["T", 130 + val, 1], ["T", 137 + val, 1]]
+                else:
+                    toks = [["T", 0, 1], ["w1", 1, 1], ["T", val, 1], ["T", val + 7, 1]]
+            elif v["kind"] == "tf":
                 toks = [["T", p, 1] for p in range(val)]
             else:
                 toks = [["T", 0, 1], ["w1", 1, 1], ["T", val, 1], ["T", val + (val if d == n - 1 else 1), 1]]
@@ -370,7 +378,9 @@ def run(ctx):
     if len(vbs) < 30:
         raise vlib.ToolError("Gen_InvertedIndex produced no frequency / gap boundary cases")
     for v in vbs:
-        if ctx.quick and v["value"] > 1000 and (v["kind"] == "tf" or v["listlen"] > 128) and v["opt"] != "pos":
+        if ctx.quick and v["kind"] == "biggap" and v["opt"] != "pos" and v["place"] != "tail":
+            continue
+        if ctx.quick and v["value"] > 1000 and (v["kind"] == "tf" or v["listlen"] > 128) and v["opt"] != "pos" and v["kind"] != "biggap":
             continue                    # quick: the 16,384-token documents only for the field with positions
         cases.append(vintb_case(len(cases), v, rng))
     ctx.cov["vint_boundary_cases"] = len(vbs)
